@@ -22,6 +22,7 @@ def run(c):
 
     c.assumptions += [
         "Unicode NFC, strings.ToLower and x/net/idna are parameters of the model; their laws (idempotence of NFC∘lower, A-label/U-label/case/NFD variants mapping to one DNS key) are sampled on the real libraries, not proved",
+        "concurrent callers: the schedule is whatever the Go scheduler does with 2..8 goroutines started together on this machine (sampled, not enumerated); an unrecoverable runtime fault (concurrent map writes) ends the harness and is reported as a harness failure, not as a monitor violation",
         "ill-formed UTF-8: the model runs on the code points Go's range yields (decodeUtf8, proved equivalent to the byte test for IsASCII); that the library primitives commute with this decoding is sampled (primitive tables are keyed by decoded code points), not proved",
     ]
     return c.finish(
@@ -50,7 +51,13 @@ def run(c):
         "size extremes through every function: labels of 62..300 octets with the ACE prefix in every letter case (xn-- XN-- Xn-- xN--), with near-miss prefixes and without one "
         "(bodies: one letter, letters+digits, mixed case, digits only, a decodable punycode tail, non-ASCII, hyphens), alone / first / middle / last label, two long labels, names of 252..1000 octets made of short labels, "
         "64..300 labels, prefix-only and tiny labels, local parts of 63..1000 octets (atoms, dotted, quoted with escapes, all backslashes, non-ASCII), each paired with an ASCII-case / prefix-case respelling "
-        "or a name that differs in its last octet only; ValidMailboxName, ValidDomain and dns.ToUnicode have correspondence ops of their own; distinct = distinct op lines",
+        "or a name that differs in its last octet only; ValidMailboxName, ValidDomain and dns.ToUnicode have correspondence ops of their own; "
+        "histories (op hist): 4..18 calls of one caller, one after the other, about two or three addresses (local-part rows x a domain the process has never looked up before: undecodable A-label, valid, disallowed code points, "
+        "over-long, empty label, literal; a case / NFD / trailing-dot respelling of it), every call asked again later (same order, reversed, shuffled), calls about another fresh name in between; monitor: the same call gets the same "
+        "answer at every point of the history, Equal(a,b) and Equal(b,a) asked at different points agree, Equal / dns.Equal agree with the keys ForLookup / dns.ForLookup hand out at any other point of the history; "
+        "concurrent callers (op par): 6..8 calls over all 15 modelled functions on variants of valid addresses, key pairs of every domain class and local parts every letter of which NFC / lower-casing changes, answered by a single caller "
+        "(twice) and then by 2..8 goroutines at the same time (120 rounds, each goroutine starts at another call); monitor: every concurrent answer is the single caller's answer, no concurrent call panics, the answers afterwards are the answers before; "
+        "the model answers hist / par call by call (runHist: C17_hist_answer, C17_par_answer); distinct = distinct op lines",
         explanation="theorems for all code-point lists and all primitive implementations; model tied to the code by differential runs; laws of the Unicode primitives sampled",
         search=search,
     )
